@@ -32,7 +32,13 @@ CHECKS["C02"] = ("reverse", "exploration",
    "Trusted: harness, verif_hooks dump. Programs come from the grammar in sim/src/gen.rs (<= 600 steps); a step that fails is the end of the forward path (the statement does not define stepping past a failure).",
    "DESIGN.md §5 C02")
 
-PENDING = {k: "check under construction in this session (claimed in DESIGN.md); listed here only until its engine lands" for k in ["C03","C04","C06","C08","C10","C14"]}
+CHECKS["C14"] = ("limits", "exploration",
+   "deterministic simulation with fault injection: instruction / stack / heap limits are the injected faults, armed at values on, just below and just above what an unlimited stepped twin of the same program needed, before the submission or between two steps; invariants after every step, twin-equality when not exceeded, recovery probes after every trip. Thorough tier enumerates every limit value 0..need+1 per sampled program",
+   "Quick: seeded sampling of (program, drive style, limit kind, limit value, arming instant). Thorough: for half of the sampled programs every value of all three limits from 0 to need+1 is enumerated (fault_enumeration over trip points; the programs themselves are sampled). Checks: meter <= N after every step, data stack and heap never grow past S / H, an exceeded limit makes the call fail with the limit error, a limit that is not exceeded changes neither result nor state, and after any trip self-contained probes succeed within 40 instructions once limits are cleared.",
+   "Trusted: harness, verif_hooks accessors (data/heap length, meter). Stack need is bracketed (push peak .. max length + 2) because the twin observes only between instructions; with build-time (meta) instructions only a huge stack limit is required to change nothing. Resumption of an interrupted program is measured, not required.",
+   "DESIGN.md §5 C14")
+
+PENDING = {k: "check under construction in this session (claimed in DESIGN.md); listed here only until its engine lands" for k in ["C03","C04","C06","C08","C10"]}
 
 def main():
     checks = []
